@@ -18,7 +18,11 @@ def run(tier, seed, replay=None):
     ]
     if not C.proof_layer(res, PID, THEORY):
         return res.finish()
-    out = D.explore(res, tier, seed)
+    only = D.parse_replay(replay) if replay else None
+    if replay and only is None:
+        res.violation("replay file not understood", open(replay).read()[:500], found_input=False)
+        return res.finish()
+    out = D.explore(res, tier, seed, only)
     if out is None:
         return res.finish()
     n, kinds, outcomes, dis, errs = 0, {}, {}, 0, 0
@@ -54,8 +58,8 @@ def run(tier, seed, replay=None):
                 dis += 1
                 if dis <= 3:
                     res.violation("model/implementation correspondence broken on damaged file (%s %s of base %s)" % (c["file"], c["op"], bid),
-                                  "case %s damage base=%s main=c.jbk file=%s op=%s\nend\n# implementation: %s\n# model:          %s\n" % (
-                                      c["id"], o["dir"], c["file"], c["op"], c["debug"]["lines"][:3], c["model"][:3]), found_input=False)
+                                  "case %s damage base=%s main=c.jbk file=%s op=%s\nend\n# base container: %s\n# implementation: %s\n# model:          %s\n" % (
+                                      c["id"], o["dir"], c["file"], c["op"], o["base"], c["debug"]["lines"][:3], c["model"][:3]), found_input=False)
     if k2_hits:
         res.known("K2", "CRC-valid altered metadata (kernel pattern 01 1E DC 6F 41) makes the reader panic or abort at %d positions of this run, e.g. %s" % (len(k2_hits), k2_hits[0]))
     res.cov["known_finding_K2_positions"] = len(k2_hits)
@@ -64,7 +68,7 @@ def run(tier, seed, replay=None):
         "rule": "base containers built by the real creator (raw, zstd, lz4 two-file; thorough adds lzma three-file); every byte position x masks, truncation lengths "
                 "(thorough: every length of the first base), zeroed / overwritten ranges, appended garbage, files that are not Jubako at all; "
                 "non-trivial = the read reports at least one error",
-        "samples": ["%s %s" % (o["cases"][7]["file"], o["cases"][7]["op"]) for o in out.values()],
+        "samples": ["%s %s" % (o["cases"][min(7, len(o["cases"]) - 1)]["file"], o["cases"][min(7, len(o["cases"]) - 1)]["op"]) for o in out.values()],
         "disagreements_checked": dis, "exhaustive": False,
     })
     return res.finish()
